@@ -10,6 +10,7 @@ import ExponaxModel.Proofs.AliasND2React
 import ExponaxModel.Proofs.AliasND3Basic
 import ExponaxModel.Proofs.AliasND3Rot
 import ExponaxModel.Proofs.NonlinFunsEq
+import ExponaxModel.Proofs.AliasMultiExamples
 /-
 C03 — nonlinear terms equal the alias-free projection of the documented operator.
 
@@ -439,5 +440,304 @@ theorem C03_generated_transforms (c : Cfg ℂ) (C : ℕ) (u uh : MC ℂ) :
     Gen.NonlinFuns.generated_classes.length = 13 := by
   refine ⟨NonlinFunsEq.BaseNonlinearFun_fft_eq c C u, NonlinFunsEq.BaseNonlinearFun_ifft_eq c C uh, ?_⟩
   rw [NonlinFunsEq.generated_classes_pinned]; rfl
+
+
+/-! ### channels, every dimension, and the DOCUMENTED CONTINUOUS OPERATOR (library `Proofs/AliasMulti*.lean`): polynomial,
+gradient-norm and general terms act channel-wise (whole-array equalities), so the alias-free statements hold per channel for any
+C; single-channel non-conservative convection in every D; the linear convolution of band-limited coefficient families is the
+coefficient family of the POINTWISE PRODUCT of the trigonometric polynomials in every D, and sampling on N > 3K (4K) points reads
+it exactly; hence on the retained modes each term is the band truncation of the spectrum of the documented continuous operator
+(½∂(u²), ½|∇u|², u Σ∂_d u, u³ — honest partial derivatives) applied to the continuous band-truncated field `PKfield` -/
+
+open Exponax.AliasMulti Exponax.AliasND Exponax.Nonlin in
+theorem C03_polynomial_is_channelwise :
+    ∀ (c : Nonlin.Cfg ℂ) (C : ℕ) (coeffs : List ℂ) (uh : Nonlin.MC ℂ),
+      ∀ ch < C,
+        Array.getD (Nonlin.polynomial c C coeffs uh) ch #[] =
+          Array.getD (Nonlin.polynomial c 1 coeffs #[Array.getD uh ch #[]]) 0 #[] :=
+  @Exponax.AliasMulti.polynomial_channel
+
+open Exponax.AliasMulti Exponax.AliasND Exponax.Nonlin in
+theorem C03_gradient_norm_is_channelwise :
+    ∀ (c : Nonlin.Cfg ℂ) (C : ℕ) (scale : ℂ) (zeroFix : Bool) (uh : Nonlin.MC ℂ),
+      ∀ ch < C,
+        Array.getD (Nonlin.gradientNorm c C scale zeroFix uh) ch #[] =
+          Array.getD (Nonlin.gradientNorm c 1 scale zeroFix #[Array.getD uh ch #[]]) 0 #[] :=
+  @Exponax.AliasMulti.gradientNorm_channel
+
+open Exponax.AliasMulti Exponax.AliasND Exponax.Nonlin in
+theorem C03_general_is_channelwise :
+    ∀ (c : Nonlin.Cfg ℂ) (C : ℕ) (s0 s1 s2 : ℂ) (zeroFix : Bool) (uh : Nonlin.MC ℂ),
+      ∀ ch < C,
+        Array.getD (Nonlin.general c C s0 s1 s2 zeroFix uh) ch #[] =
+          Array.getD (Nonlin.general c 1 s0 s1 s2 zeroFix #[Array.getD uh ch #[]]) 0 #[] :=
+  @Exponax.AliasMulti.general_channel
+
+open Exponax.AliasMulti Exponax.AliasND Exponax.Nonlin in
+theorem C03_polynomial_quadratic_nd_channels :
+    ∀ (c : Nonlin.Cfg ℂ),
+      0 < c.D →
+        c.fq ≠ 0 →
+          3 * Alias.Kc c < ↑c.N →
+            0 < c.N →
+              ∀ (C : ℕ) (c0 c1 c2 : ℂ) (uh : Nonlin.MC ℂ) (xs : ℕ → Array ℂ),
+                (∀ ch < C, AliasND.IsRealND c.D c.N (xs ch)) →
+                  (∀ ch < C, Array.getD uh ch #[] = Transform.rfftnM c.D c.N (xs ch)) →
+                    ∀ ch < C,
+                      ∀ h < Layout.numModes c.D c.N,
+                        (Nonlin.mask c h = 1 →
+                            Nonlin.at2 (Nonlin.polynomial c C [c0, c1, c2] uh) ch h =
+                              (c0 * if h = 0 then ↑(c.N ^ c.D) else 0) + c1 * (Transform.rfftnM c.D c.N (xs ch)).getD h 0 +
+                                c2 *
+                                  AliasND.linConv c.D c.N (Alias.Kc c) (AliasND.dftV c.D c.N (xs ch))
+                                    (AliasND.dftV c.D c.N (xs ch)) (AliasND.kvec c.D c.N h)) ∧
+                          (Nonlin.mask c h = 0 → Nonlin.at2 (Nonlin.polynomial c C [c0, c1, c2] uh) ch h = 0) :=
+  @Exponax.AliasMulti.polynomial_quadratic_alias_free_nd_channels
+
+open Exponax.AliasMulti Exponax.AliasND Exponax.Nonlin in
+theorem C03_polynomial_cubic_nd_channels :
+    ∀ (c : Nonlin.Cfg ℂ),
+      0 < c.D →
+        c.fq ≠ 0 →
+          4 * Alias.Kc c < ↑c.N →
+            0 < c.N →
+              ∀ (C : ℕ) (c0 c1 c2 c3 : ℂ) (uh : Nonlin.MC ℂ) (xs : ℕ → Array ℂ),
+                (∀ ch < C, AliasND.IsRealND c.D c.N (xs ch)) →
+                  (∀ ch < C, Array.getD uh ch #[] = Transform.rfftnM c.D c.N (xs ch)) →
+                    ∀ ch < C,
+                      ∀ h < Layout.numModes c.D c.N,
+                        (Nonlin.mask c h = 1 →
+                            Nonlin.at2 (Nonlin.polynomial c C [c0, c1, c2, c3] uh) ch h =
+                              (c0 * if h = 0 then ↑(c.N ^ c.D) else 0) + c1 * (Transform.rfftnM c.D c.N (xs ch)).getD h 0 +
+                                  c2 *
+                                    AliasND.linConv c.D c.N (Alias.Kc c) (AliasND.dftV c.D c.N (xs ch))
+                                      (AliasND.dftV c.D c.N (xs ch)) (AliasND.kvec c.D c.N h) +
+                                c3 *
+                                  AliasND.linConv3 c.D c.N (Alias.Kc c) (AliasND.dftV c.D c.N (xs ch))
+                                    (AliasND.dftV c.D c.N (xs ch)) (AliasND.dftV c.D c.N (xs ch))
+                                    (AliasND.kvec c.D c.N h)) ∧
+                          (Nonlin.mask c h = 0 → Nonlin.at2 (Nonlin.polynomial c C [c0, c1, c2, c3] uh) ch h = 0) :=
+  @Exponax.AliasMulti.polynomial_cubic_alias_free_nd_channels
+
+open Exponax.AliasMulti Exponax.AliasND Exponax.Nonlin in
+theorem C03_gradient_norm_nd_channels :
+    ∀ (c : Nonlin.Cfg ℂ),
+      0 < c.D →
+        c.fq ≠ 0 →
+          3 * Alias.Kc c < ↑c.N →
+            0 < c.N →
+              ∀ (s : ℝ),
+                c.s = ↑s →
+                  ∀ (C : ℕ) (scale : ℂ) (zeroFix : Bool) (uh : Nonlin.MC ℂ) (xs : ℕ → Array ℂ),
+                    (∀ ch < C, AliasND.IsRealND c.D c.N (xs ch)) →
+                      (∀ ch < C, Array.getD uh ch #[] = Transform.rfftnM c.D c.N (xs ch)) →
+                        ∀ ch < C,
+                          ∀ h < Layout.numModes c.D c.N,
+                            (Nonlin.mask c h = 1 →
+                                Nonlin.at2 (Nonlin.gradientNorm c C scale zeroFix uh) ch h =
+                                  if zeroFix = true ∧ h = 0 then 0
+                                  else
+                                    -scale * (1 / 2) *
+                                      ∑ d ∈ Finset.range c.D,
+                                        AliasND.linConv c.D c.N (Alias.Kc c) (AliasND.dspec c d (xs ch))
+                                          (AliasND.dspec c d (xs ch)) (AliasND.kvec c.D c.N h)) ∧
+                              (Nonlin.mask c h = 0 → Nonlin.at2 (Nonlin.gradientNorm c C scale zeroFix uh) ch h = 0) :=
+  @Exponax.AliasMulti.gradientNorm_alias_free_nd_channels
+
+open Exponax.AliasMulti Exponax.AliasND Exponax.Nonlin in
+theorem C03_general_nd_channels :
+    ∀ (c : Nonlin.Cfg ℂ),
+      0 < c.D →
+        c.fq ≠ 0 →
+          3 * Alias.Kc c < ↑c.N →
+            0 < c.N →
+              ∀ (s : ℝ),
+                c.s = ↑s →
+                  ∀ (C : ℕ) (s0 s1 s2 : ℂ) (zeroFix : Bool) (uh : Nonlin.MC ℂ) (xs : ℕ → Array ℂ),
+                    (∀ ch < C, AliasND.IsRealND c.D c.N (xs ch)) →
+                      (∀ ch < C, Array.getD uh ch #[] = Transform.rfftnM c.D c.N (xs ch)) →
+                        ∀ ch < C,
+                          ∀ h < Layout.numModes c.D c.N,
+                            (Nonlin.mask c h = 1 →
+                                Nonlin.at2 (Nonlin.general c C s0 s1 s2 zeroFix uh) ch h =
+                                  s0 *
+                                        AliasND.linConv c.D c.N (Alias.Kc c) (AliasND.dftV c.D c.N (xs ch))
+                                          (AliasND.dftV c.D c.N (xs ch)) (AliasND.kvec c.D c.N h) +
+                                      s1 *
+                                        ((1 / 2 * ∑ d ∈ Finset.range c.D, Nonlin.deriv c d h) *
+                                          AliasND.linConv c.D c.N (Alias.Kc c) (AliasND.dftV c.D c.N (xs ch))
+                                            (AliasND.dftV c.D c.N (xs ch)) (AliasND.kvec c.D c.N h)) +
+                                    if zeroFix = true ∧ h = 0 then 0
+                                    else
+                                      s2 * (1 / 2) *
+                                        ∑ d ∈ Finset.range c.D,
+                                          AliasND.linConv c.D c.N (Alias.Kc c) (AliasND.dspec c d (xs ch))
+                                            (AliasND.dspec c d (xs ch)) (AliasND.kvec c.D c.N h)) ∧
+                              (Nonlin.mask c h = 0 → Nonlin.at2 (Nonlin.general c C s0 s1 s2 zeroFix uh) ch h = 0) :=
+  @Exponax.AliasMulti.general_alias_free_nd_channels
+
+open Exponax.AliasMulti Exponax.AliasND Exponax.Nonlin in
+theorem C03_convection_single_nonconservative_nd :
+    ∀ (c : Nonlin.Cfg ℂ),
+      0 < c.D →
+        c.fq ≠ 0 →
+          3 * Alias.Kc c < ↑c.N →
+            0 < c.N →
+              ∀ (s : ℝ),
+                c.s = ↑s →
+                  ∀ (scale : ℂ) (x : Array ℂ),
+                    AliasND.IsRealND c.D c.N x →
+                      ∀ h < Layout.numModes c.D c.N,
+                        (Nonlin.mask c h = 1 →
+                            Nonlin.at2 (Nonlin.convection c 1 scale true false #[Transform.rfftnM c.D c.N x]) 0 h =
+                              -scale *
+                                ∑ d ∈ Finset.range c.D,
+                                  AliasND.linConv c.D c.N (Alias.Kc c) (AliasND.dftV c.D c.N x) (AliasND.dspec c d x)
+                                    (AliasND.kvec c.D c.N h)) ∧
+                          (Nonlin.mask c h = 0 →
+                            Nonlin.at2 (Nonlin.convection c 1 scale true false #[Transform.rfftnM c.D c.N x]) 0 h = 0) :=
+  @Exponax.AliasMulti.convection_single_nc_nd
+
+open Exponax.AliasMulti Exponax.AliasND Exponax.Nonlin in
+theorem C03_convolution_is_product_nd :
+    ∀ {D : ℕ} (s : ℝ) (K L : ℤ) (F G : (Fin D → ℤ) → ℂ) (ξ : Fin D → ℝ),
+      tpoly s K F ξ * tpoly s L G ξ = tpoly s (K + L) (conv K L F G) ξ :=
+  @Exponax.AliasMulti.tpoly_mul
+
+open Exponax.AliasMulti Exponax.AliasND Exponax.Nonlin in
+theorem C03_sampled_product_spectrum_nd :
+    ∀ (D N : ℕ),
+      0 < N →
+        ∀ (K : ℤ),
+          3 * K < ↑N →
+            ∀ (F G : (Fin D → ℤ) → ℂ),
+              ∀ h < Layout.numModes D N,
+                (∀ (d : Fin D), |AliasND.kvec D N h d| ≤ K) →
+                  (Transform.rfftnM D N
+                          (Transform.tab (N ^ D) fun j ↦ (sampleTP D N K F).getD j 0 * (sampleTP D N K G).getD j 0)).getD
+                      h 0 =
+                    ↑(N ^ D) * conv K K F G (AliasND.kvec D N h) :=
+  @Exponax.AliasMulti.rfftn_sampleTP_mul
+
+open Exponax.AliasMulti Exponax.AliasND Exponax.Nonlin in
+theorem C03_sampled_cubic_product_spectrum_nd :
+    ∀ (D N : ℕ),
+      0 < N →
+        ∀ (K : ℤ),
+          4 * K < ↑N →
+            ∀ (F G H : (Fin D → ℤ) → ℂ),
+              ∀ h < Layout.numModes D N,
+                (∀ (d : Fin D), |AliasND.kvec D N h d| ≤ K) →
+                  (Transform.rfftnM D N
+                          (Transform.tab (N ^ D) fun j ↦
+                            (sampleTP D N K F).getD j 0 * (sampleTP D N K G).getD j 0 * (sampleTP D N K H).getD j 0)).getD
+                      h 0 =
+                    ↑(N ^ D) * conv3 K F G H (AliasND.kvec D N h) :=
+  @Exponax.AliasMulti.rfftn_sampleTP_mul3
+
+open Exponax.AliasMulti Exponax.AliasND Exponax.Nonlin in
+theorem C03_dealiased_state_is_band_truncated_field :
+    ∀ (c : Nonlin.Cfg ℂ),
+      0 < c.D →
+        c.fq ≠ 0 →
+          0 < c.N →
+            2 * Alias.Kc c < ↑c.N →
+              ∀ (s : ℝ),
+                s ≠ 0 →
+                  ∀ (x : Array ℂ),
+                    AliasND.IsRealND c.D c.N x →
+                      ∀ j < c.N ^ c.D,
+                        (Nonlin.nifft c (Transform.rfftnM c.D c.N x)).getD j 0 = PKfield c s x (gridPt s c.D c.N j) :=
+  @Exponax.AliasMulti.nifft_rfftn_eq_PKfield
+
+open Exponax.AliasMulti Exponax.AliasND Exponax.Nonlin in
+theorem C03_convection_is_continuous_operator_nd :
+    ∀ (c : Nonlin.Cfg ℂ),
+      0 < c.D →
+        c.fq ≠ 0 →
+          3 * Alias.Kc c < ↑c.N →
+            0 < c.N →
+              ∀ (s : ℝ),
+                c.s = ↑s →
+                  ∀ (b : ℂ) (x : Array ℂ),
+                    AliasND.IsRealND c.D c.N x →
+                      HasCoeffs s (Alias.Kc c + Alias.Kc c) (opConsConv b (PKfield c s x))
+                          (consConvCoef s (Alias.Kc c) b (ucoef c x)) ∧
+                        ∀ h < Layout.numModes c.D c.N,
+                          (Nonlin.mask c h = 1 →
+                              Nonlin.at2 (Nonlin.convection c 1 b true true #[Transform.rfftnM c.D c.N x]) 0 h =
+                                ↑(c.N ^ c.D) * consConvCoef s (Alias.Kc c) b (ucoef c x) (AliasND.kvec c.D c.N h)) ∧
+                            (Nonlin.mask c h = 0 →
+                              Nonlin.at2 (Nonlin.convection c 1 b true true #[Transform.rfftnM c.D c.N x]) 0 h = 0) :=
+  @Exponax.AliasMulti.convection_conservative_continuous_nd
+
+open Exponax.AliasMulti Exponax.AliasND Exponax.Nonlin in
+theorem C03_gradient_norm_is_continuous_operator_nd :
+    ∀ (c : Nonlin.Cfg ℂ),
+      0 < c.D →
+        c.fq ≠ 0 →
+          3 * Alias.Kc c < ↑c.N →
+            0 < c.N →
+              ∀ (s : ℝ),
+                c.s = ↑s →
+                  ∀ (b : ℂ) (zeroFix : Bool) (x : Array ℂ),
+                    AliasND.IsRealND c.D c.N x →
+                      HasCoeffs s (Alias.Kc c + Alias.Kc c) (opGradNorm b (PKfield c s x))
+                          (gradNormCoef s (Alias.Kc c) b (ucoef c x)) ∧
+                        (∀ h < Layout.numModes c.D c.N,
+                            (Nonlin.mask c h = 1 →
+                                Nonlin.at2 (Nonlin.gradientNorm c 1 b zeroFix #[Transform.rfftnM c.D c.N x]) 0 h =
+                                  ↑(c.N ^ c.D) *
+                                    if zeroFix = true ∧ AliasND.kvec c.D c.N h = 0 then 0
+                                    else gradNormCoef s (Alias.Kc c) b (ucoef c x) (AliasND.kvec c.D c.N h)) ∧
+                              (Nonlin.mask c h = 0 →
+                                Nonlin.at2 (Nonlin.gradientNorm c 1 b zeroFix #[Transform.rfftnM c.D c.N x]) 0 h = 0)) ∧
+                          (0 ≤ Alias.Kc c →
+                            HasCoeffs s (Alias.Kc c + Alias.Kc c)
+                              (fun ξ ↦ opGradNorm b (PKfield c s x) ξ - gradNormCoef s (Alias.Kc c) b (ucoef c x) 0) fun r ↦
+                              if r = 0 then 0 else gradNormCoef s (Alias.Kc c) b (ucoef c x) r) :=
+  @Exponax.AliasMulti.gradientNorm_continuous_nd
+
+open Exponax.AliasMulti Exponax.AliasND Exponax.Nonlin in
+theorem C03_cubic_is_continuous_operator_nd :
+    ∀ (c : Nonlin.Cfg ℂ),
+      0 < c.D →
+        c.fq ≠ 0 →
+          4 * Alias.Kc c < ↑c.N →
+            0 < c.N →
+              ∀ (s : ℝ) (c0 c1 c2 c3 : ℂ) (x : Array ℂ),
+                AliasND.IsRealND c.D c.N x →
+                  (0 ≤ Alias.Kc c →
+                      HasCoeffs s (Alias.Kc c + Alias.Kc c + Alias.Kc c) (opPoly3 c0 c1 c2 c3 (PKfield c s x))
+                        (poly3Coef (Alias.Kc c) c0 c1 c2 c3 (ucoef c x))) ∧
+                    ∀ h < Layout.numModes c.D c.N,
+                      (Nonlin.mask c h = 1 →
+                          Nonlin.at2 (Nonlin.polynomial c 1 [c0, c1, c2, c3] #[Transform.rfftnM c.D c.N x]) 0 h =
+                            ↑(c.N ^ c.D) * poly3Coef (Alias.Kc c) c0 c1 c2 c3 (ucoef c x) (AliasND.kvec c.D c.N h)) ∧
+                        (Nonlin.mask c h = 0 →
+                          Nonlin.at2 (Nonlin.polynomial c 1 [c0, c1, c2, c3] #[Transform.rfftnM c.D c.N x]) 0 h = 0) :=
+  @Exponax.AliasMulti.polynomial_cubic_continuous_nd
+
+open Exponax.AliasMulti Exponax.AliasND Exponax.Nonlin in
+theorem C03_convection_nonconservative_is_continuous_operator_nd :
+    ∀ (c : Nonlin.Cfg ℂ),
+      0 < c.D →
+        c.fq ≠ 0 →
+          3 * Alias.Kc c < ↑c.N →
+            0 < c.N →
+              ∀ (s : ℝ),
+                c.s = ↑s →
+                  ∀ (b : ℂ) (x : Array ℂ),
+                    AliasND.IsRealND c.D c.N x →
+                      HasCoeffs s (Alias.Kc c + Alias.Kc c) (opNonConsConv b (PKfield c s x))
+                          (nonConsConvCoef s (Alias.Kc c) b (ucoef c x)) ∧
+                        ∀ h < Layout.numModes c.D c.N,
+                          (Nonlin.mask c h = 1 →
+                              Nonlin.at2 (Nonlin.convection c 1 b true false #[Transform.rfftnM c.D c.N x]) 0 h =
+                                ↑(c.N ^ c.D) * nonConsConvCoef s (Alias.Kc c) b (ucoef c x) (AliasND.kvec c.D c.N h)) ∧
+                            (Nonlin.mask c h = 0 →
+                              Nonlin.at2 (Nonlin.convection c 1 b true false #[Transform.rfftnM c.D c.N x]) 0 h = 0) :=
+  @Exponax.AliasMulti.convection_single_nc_continuous_nd
+
 
 end Exponax
